@@ -40,7 +40,7 @@ def run(R):
         check_copies(c, f, 'dead-branch')
     with R.clause('D2', 'ORDER', floor=5, desc='wait() returns the library result; close() refreshes status; run() closes before reading exitstatus') as c:
         check_order(c, repo)
-    with R.clause('D3', 'SIGN', floor=6, desc='PopenSpawn.wait: sign classification, both fields in both branches, 0 is an exit code') as c:
+    with R.clause('D3', 'SIGN', floor=10, desc='PopenSpawn.wait: sign classification, both fields in both branches, 0 is an exit code') as c:
         check_popen_wait(c, repo.func('popen_spawn:PopenSpawn.wait'))
     with R.clause('D4', 'OWN', floor=3, desc='only isalive()/wait() consult ptyprocess about the child\'s fate') as c:
         n = 0
@@ -178,36 +178,25 @@ def eval_sign_guard(test, var, value):
 
 
 def check_popen_wait(c, f):
+    """what wait() records for each kind of return code, found by evaluating the routine on concrete return codes (sa/minieval.py):
+    whatever the shape of the tests -- an if/else, two conditional expressions, a helper written back into the routine"""
+    from ..minieval import Evaluator
     g = f.cfg
-    ws = cfg_nodes_with_call(f, lambda k: callee_last(k) == 'wait' and (ctext(k.func.value, f) or '').endswith('.proc'))
-    c.need(len(ws) == 1 and isinstance(ws[0][0].ast, ast.Assign), 'PopenSpawn.wait: status = self.proc.wait() not found')
-    sv = ws[0][0].ast.targets[0].id
-    tests = [t for t in g.nodes if t.kind == 'test']
-    c.need(len(tests) == 1, 'PopenSpawn.wait: expected one sign test')
-    t = tests[0]
-    e0 = eval_sign_guard(t.ast, sv, 0)
-    e1 = eval_sign_guard(t.ast, sv, 1)
-    em = eval_sign_guard(t.ast, sv, -1)
-    c.need(e0 is not None, 'sign test not understood: %s' % norm(t.ast))
-    c.check(e0 == e1 and e0 != em, f, t.ast, 'return code 0 is classified with the positive codes (an exit), -1 as a signal',
-            witness='guard(0)=%s guard(1)=%s guard(-1)=%s' % (e0, e1, em), kind='alg', tag='zero-is-exit')
-    exit_edge = 'true' if e0 else 'false'
-    sig_edge = 'false' if e0 else 'true'
-    er, sr = guard_region(g, t, exit_edge), guard_region(g, t, sig_edge)
-
-    def val(region, fld):
-        xs = [n for n in region if n.kind == 'stmt' and stmt_assigns_attr(n.ast, fld) is not None]
-        return xs[0].ast.value if len(xs) == 1 else None
-    c.check(val(er, 'exitstatus') is not None and is_name(val(er, 'exitstatus'), sv), f, t.ast, 'exit branch: exitstatus = the return code', kind='ast', tag='exit-exitstatus')
-    c.check(val(er, 'signalstatus') is not None and is_const(val(er, 'signalstatus'), None), f, t.ast, 'exit branch: signalstatus = None', kind='ast', tag='exit-signalstatus')
-    c.check(val(sr, 'exitstatus') is not None and is_const(val(sr, 'exitstatus'), None), f, t.ast, 'signal branch: exitstatus = None', kind='ast', tag='sig-exitstatus')
-    sv_l = lin(val(sr, 'signalstatus'), f, keep=(sv,)) if val(sr, 'signalstatus') is not None else None
-    c.check(sv_l is not None and sv_l == Lin(0, {sv: -1}), f, t.ast, 'signal branch: signalstatus = -returncode', witness='%r' % sv_l, kind='alg', tag='sig-signalstatus')
-    term = [n for n in g.nodes if n.kind == 'stmt' and stmt_assigns_attr(n.ast, 'terminated') is not None and is_const(n.ast.value, True)]
-    others = [n for n in g.nodes if n.kind == 'stmt' and stmt_assigns_attr(n.ast, 'terminated') is not None and n not in term]
-    c.check(bool(term) and not others and g.dominated_by(g.exit, set(term))[0], f, term[0].ast if term else None, 'terminated = True on every path', tag='terminated')
-    rets = returns(f)
-    c.check(len(rets) == 1 and is_name(rets[0].ast.value, sv), f, rets[0].ast if rets else None, 'returns the return code', kind='ast', tag='returns')
+    ws0 = cfg_nodes_with_call(f, lambda k: callee_last(k) == 'wait' and (ctext(k.func.value, f) or '').endswith('.proc'))
+    c.need(len(ws0) == 1, 'PopenSpawn.wait: self.proc.wait() not found')
+    wtext = norm(ws0[0][1].func)
+    for code, want in ((0, (0, None)), (1, (1, None)), (255, (255, None)), (-1, (None, 1)), (-15, (None, 15))):
+        ev = Evaluator(env={'self.exitstatus': 'unset', 'self.signalstatus': 'unset', 'self.terminated': 'unset'},
+                       hooks={wtext: lambda args, e_, code=code: code}, what='PopenSpawn.wait')
+        kind, val = ev.call(f.node)
+        got = (ev.env.get('self.exitstatus'), ev.env.get('self.signalstatus'))
+        what = ('an exit code %d is recorded as exitstatus=%d, signalstatus=None' % (code, code)) if code >= 0 else \
+            ('a return code %d (killed by signal %d) is recorded as exitstatus=None, signalstatus=%d' % (code, -code, -code))
+        c.check(kind == 'return' and got == want and type(got[0]) is type(want[0]) and type(got[1]) is type(want[1]), f, ws0[0][1], what,
+                witness='wait() %ss %r; exitstatus=%r signalstatus=%r' % (kind, val, got[0], got[1]), kind='alg', tag='popen-code:%d' % code)
+        c.check(ev.env.get('self.terminated') is True, f, ws0[0][1], 'terminated = True after wait() (return code %d)' % code,
+                witness='terminated=%r' % (ev.env.get('self.terminated'),), kind='alg', tag='popen-terminated:%d' % code)
+        c.check(kind == 'return' and val == code, f, ws0[0][1], 'wait() returns the return code (%d)' % code, witness='%s %r' % (kind, val), kind='alg', tag='popen-returns:%d' % code)
 
 
 MUTANTS = [
